@@ -20,10 +20,11 @@ type baseRead struct {
 }
 
 type SymMap struct {
-	Name  string
-	Open  bool
-	Log   *logNode
-	Reads *baseRead
+	Name   string
+	Open   bool
+	Log    *logNode
+	Reads  *baseRead
+	Closed []*Term // key prefixes under which the (otherwise open) base is assumed empty
 }
 
 type tblNode struct {
@@ -163,6 +164,20 @@ func (m *SymMap) get(k *Term) []getOutcome {
 			return out
 		}
 		miss = And(miss, Not(eq))
+	}
+	if len(m.Closed) > 0 {
+		var cs []*Term
+		for _, p := range m.Closed {
+			cs = append(cs, PrefixOf(p, k))
+		}
+		closed := Or(cs...)
+		if closed != TFalse {
+			out = append(out, getOutcome{cond: And(miss, closed), val: nil})
+		}
+		miss = And(miss, Not(closed))
+		if miss == TFalse {
+			return out
+		}
 	}
 	out = append(out, getOutcome{cond: miss, mat: true})
 	return out
